@@ -106,6 +106,15 @@ func checkC01(ctx *Ctx) *Result {
 	}
 
 	treeRules(ctx, r)
+	// "a listed pattern allows its own origin" also needs the request-side
+	// parser to admit every origin a pattern can denote (defect F3): shared
+	// with C13
+	r.rule("R13.5", "request-side Parse: length cap admits the longest origin an accepted pattern denotes, same lexers, trailing input rejected", 3)
+	for _, o := range checkC13(ctx).Obls {
+		if o.Rule == "R13.5" {
+			r.Obls = append(r.Obls, o)
+		}
+	}
 	return r
 }
 
